@@ -25,3 +25,9 @@ package codegen
 //@   property C10
 //@   ensures* the.validated.number: a != nil && inMap(a.Meta, "rpc:tag") && len(a.Meta["rpc:tag"]) >= 1 ==> result == parseUintSpec(a.Meta["rpc:tag"][len(a.Meta["rpc:tag"]) - 1])
 //@   modifies nothing
+
+// ---- generated output does not depend on map iteration order (C09) --------------------------------
+// Every function of this package that ranges over a map is either proved independent of the iteration order
+// (commutativity of the loop body, or keys collected and sorted before use) or listed here as NOT proved;
+// a range over a map appearing anywhere else in the package is reported.
+//@ maprange-census property C09:
